@@ -414,7 +414,13 @@ public:
       parents = C.getParents(parents[0]);
     }
     std::string qn = owner + "::(lambda@" + std::to_string(lineOf(L->getBeginLoc())) + ")";
-    std::string extra = ",\"lambda\":true,\"lambda_var\":\"" + jesc(var) + "\"";
+    std::string psig;
+    {
+      const DeclContext* P = L->getLambdaClass()->getDeclContext();
+      while (P && !(isa<FunctionDecl>(P) && !(isa<CXXMethodDecl>(P) && cast<CXXMethodDecl>(P)->getParent()->isLambda()))) P = P->getParent();
+      if (auto* PF = dyn_cast_or_null<FunctionDecl>(P)) { Canon K0(C, PF); llvm::raw_string_ostream os(psig); PF->getNameForDiagnostic(os, K0.PP, true); os.flush(); }
+    }
+    std::string extra = ",\"lambda\":true,\"lambda_var\":\"" + jesc(var) + "\",\"parent_sig\":\"" + jesc(psig) + "\"";
     emit(MD, MD->getBody(), qn, extra);
     return true;
   }
